@@ -1,7 +1,9 @@
 #!/bin/bash
 # Single entry point: sv check <ID> [--tier quick|thorough] | sv replay <file> | sv selftest determinism
 here="$(cd "$(dirname "$0")" && pwd)"
-export PYTHONPATH="$here:/repo${PYTHONPATH:+:$PYTHONPATH}"
+repo="${SVSIM_REPO:-/repo}"
+export SVSIM_REPO="$repo"
+export PYTHONPATH="$here:$repo${PYTHONPATH:+:$PYTHONPATH}"
 export PYTHONHASHSEED="${PYTHONHASHSEED:-0}"
 export OPENBLAS_NUM_THREADS=1 OMP_NUM_THREADS=1 MKL_NUM_THREADS=1
 export PYTHONDONTWRITEBYTECODE=1
